@@ -25,6 +25,10 @@ ASSUME = ["series tolerances: 10 x the first omitted term for values, finite-dif
           "one-sided 5-point stencils for boundary fluxes (4th order)"]
 
 
+# nodes of the low modes of the four boundary-condition classes: m/n, 2m/(2n+1), (2m+1)/(2n+1), (2m+1)/(2n)
+NODE_FRACTIONS = [1 / 2, 1 / 3, 2 / 3, 1 / 4, 3 / 4, 1 / 5, 2 / 5, 3 / 5, 4 / 5, 2 / 7, 1 / 6]
+
+
 def one_sided(f, h):
     """4th-order one-sided first derivative from f(x0), f(x0+h) ... f(x0+4h)"""
     return (-25 * f[0] + 48 * f[1] - 36 * f[2] + 16 * f[3] - 3 * f[4]) / (12 * h)
@@ -111,6 +115,22 @@ def run_rod(ctx, p):
         ok, res, sc = residual([Tt1, -kap * Txx], [eTt, kap * eTxx], tol=1e-5)
         triv = sc <= 1e-7 * amp * kap / (L * L)
         ctx.observe("heat.pde", name, True if triv else ok, branch=br, measure=res, tol=1e-5, nontrivial=not triv, detail=dict(det, x=x0))
+    # the same equation from single-point requests centred on a node of a low mode (x/L rational): a request that consists
+    # of nodes only is the one a "negligible term" shortcut can mistake for a converged sum
+    k0 = int(p["xf"][0] * 1e6) % len(NODE_FRACTIONS)
+    for f in (NODE_FRACTIONS[k0], NODE_FRACTIONS[(k0 + 3) % len(NODE_FRACTIONS)]):
+        x0 = f * L
+        X = np.array([T1d(ctx, s, [x0 + o * hx / 2], t)[0] for o in OFF9])
+        Tt = np.array([T1d(ctx, s, [x0], t + k * ht / 2)[0] for k in OFF9])
+        _, _, _, Txx, eTxx = derivs9(X, hx)
+        _, Tt1, eTt, _, _ = derivs9(Tt, ht)
+        noise = 100 * 2.2e-16 * amp
+        eTxx += noise / (hx / 2) ** 2
+        eTt += noise / (ht / 2)
+        ok, res, sc = residual([Tt1, -kap * Txx], [eTt, kap * eTxx], tol=1e-5)
+        triv = sc <= 1e-7 * amp * kap / (L * L)
+        ctx.observe("heat.pde", name, True if triv else ok, branch=br + " single-point requests at a mode node", measure=res, tol=1e-5,
+                    nontrivial=not triv, detail=dict(det, x=x0, x_over_L=f))
     # ---- boundary operators at t > 0 ------------------------------------------------------------------------------
     h = 2e-3 * L
     xl = np.arange(5) * h
